@@ -24,12 +24,16 @@ pub struct BCfg {
     /// family: the datagram with this emission index (either direction) is dropped `lose_times` times in a row
     pub lose_index: Option<usize>,
     pub lose_times: usize,
+    /// the peer's own timer is three times faster than the worker's: whenever the network is quiet the peer's timer fires
+    /// (its retransmission reaches the worker a third of a timeout into its wait), so the worker's receive never times
+    /// out while the peer is alive — retransmission must then be driven by the elapsed time, not by a receive timeout
+    pub fast_peer_timer: bool,
 }
 
 impl BCfg {
     pub fn to_json(&self) -> Value {
         json!({"x": self.x.to_json(), "reack_dup": self.reack_dup, "ack_on_timeout": self.ack_on_timeout, "dally": self.dally,
-               "fault_window": self.fault_window.map(|(a, b)| vec![a, b]), "lose_index": self.lose_index, "lose_times": self.lose_times})
+               "fault_window": self.fault_window.map(|(a, b)| vec![a, b]), "lose_index": self.lose_index, "lose_times": self.lose_times, "fast_peer_timer": self.fast_peer_timer})
     }
     pub fn from_json(v: &Value) -> BCfg {
         BCfg {
@@ -40,10 +44,11 @@ impl BCfg {
             fault_window: v["fault_window"].as_array().map(|a| (a[0].as_u64().unwrap(), a[1].as_u64().unwrap())),
             lose_index: v["lose_index"].as_u64().map(|x| x as usize),
             lose_times: v["lose_times"].as_u64().unwrap_or(0) as usize,
+            fast_peer_timer: v["fast_peer_timer"].as_bool().unwrap_or(false),
         }
     }
     pub fn brief(&self) -> String {
-        format!("{} peer[{}{}{}]", self.x.brief(), if self.reack_dup { "reack " } else { "" }, if self.ack_on_timeout { "ack-on-timeout " } else { "" }, if self.dally { "dally" } else { "" })
+        format!("{} peer[{}{}{}{}]", self.x.brief(), if self.reack_dup { "reack " } else { "" }, if self.ack_on_timeout { "ack-on-timeout " } else { "" }, if self.dally { "dally" } else { "" }, if self.fast_peer_timer { " fast-timer" } else { "" })
     }
 }
 
@@ -356,7 +361,7 @@ pub fn run_b(c: &BCfg, prefix: &[u16]) -> BTrace {
         }
         Role::Receiver => {
             let p = format!("{dir}/upload");
-            let _ = std::fs::remove_file(&p);
+            let _ = std::fs::write(&p, vec![0xA5u8; cfg.len.min(4096) + 97]);
             p
         }
     };
@@ -522,6 +527,8 @@ pub fn run_b(c: &BCfg, prefix: &[u16]) -> BTrace {
         // one side's timer has fired the other side's fires before the first one fires again (equal periods, fairness)
         let first_worker = if !peer_timer {
             true
+        } else if c.fast_peer_timer {
+            false
         } else {
             match last_fired {
                 Some(true) => false,
@@ -544,9 +551,18 @@ pub fn run_b(c: &BCfg, prefix: &[u16]) -> BTrace {
         } else {
             let outs = peer.on_timeout();
             to_peer.release_delayed();
+            if c.fast_peer_timer && outs.is_empty() {
+                // the peer's timer fired without emitting anything: nothing reaches the worker, so its own receive
+                // timeout is what happens next
+                last_fired = Some(true);
+                timer_flag = true;
+                drv.answer(Answer::Timeout);
+                to_worker.release_delayed();
+                continue;
+            }
             for o in outs {
                 // datagrams triggered by the peer's own (shorter) timer reach the worker half a timeout into its wait
-                em.emit(&mut ch, &mut to_worker, o, "peer", t_ns / 2);
+                em.emit(&mut ch, &mut to_worker, o, "peer", if c.fast_peer_timer { t_ns / 3 } else { t_ns / 2 });
             }
             if to_worker.idle() && to_peer.idle() && !peer.has_timer() {
                 // the peer gave up; only the worker's timer is left
